@@ -637,6 +637,12 @@ def remap_by_types(
             Returns:
                 ast.AST: An updated ast that is the new method call (with default args, etc.)
             """
+            # The methods of python's own scalar types are not something we know how to
+            # normalize or type: the call is passed on as it is.
+            if obj_type in (int, float, bool, str, bytes, complex, type(None)):
+                self._found_types[node] = Any
+                return node
+
             # Make reference copies that we'll populate as we go
             r_node = node
 
